@@ -350,3 +350,77 @@ func VH_C06_companion_elliptic_segment() {
 	}
 	vAssert("C06.companion.segment_windings_match_the_analytic_region", bad == 0)
 }
+
+// C04 companion: stroke of single Béziers and arcs with round caps and joins against the distance to
+// a dense independent evaluation of the curve: grid points closer than w/2 - 0.05 must be inside,
+// points farther than w/2 + 0.05 outside.  Gentle and S-shaped curves, an arc, and two hairpins
+// whose radius of curvature at the tip (0.02) is far below w/2 - there the outer side must sweep
+// round the tip, which the flattened offset does not (finding D82).
+func VH_C04_companion_curve_stroke() {
+	shapes := []string{
+		"M0 0C2 3 6 3 8 0",       // 0 gentle arch
+		"M0 0C4 4 4 -4 8 0",      // 1 S-curve with an inflection
+		"M0 0Q4 6 8 0",           // 2 quadratic
+		"M0 3A4 2 0 0 1 8 3",     // 3 half ellipse
+		"M0 0C7 1 8 7 6 2",       // 4 hairpin (near-cusp)
+		"M0 0L4 0C1 5 3 1 8 0",   // 5 line into a tight loop
+		"M0 0C3 0 5 1 5 4",       // 6 quarter turn
+	}
+	k := vChoose(0, len(shapes)-1)
+	w := []float64{1, 2}[vChoose(0, 1)]
+	p := MustParseSVGPath(shapes[k])
+	s := p.Stroke(w, RoundCap, RoundJoin, 0.01)
+	// dense polyline of the curve
+	subs, ok := vhDecode(p.d)
+	if !ok {
+		vAssert("C04.companion.decodes", false)
+		return
+	}
+	var pts []Point
+	for _, sb := range subs {
+		pts = append(pts, sb.start)
+		for _, sg := range sb.segs {
+			for i := 1; i <= 240; i++ {
+				t := float64(i) / 240
+				u := 1 - t
+				var q Point
+				switch sg.cmd {
+				case QuadToCmd:
+					c := Point{sg.a[0], sg.a[1]}
+					q = Point{u*u*sg.start.X + 2*u*t*c.X + t*t*sg.end.X, u*u*sg.start.Y + 2*u*t*c.Y + t*t*sg.end.Y}
+				case CubeToCmd:
+					c1, c2 := Point{sg.a[0], sg.a[1]}, Point{sg.a[2], sg.a[3]}
+					q = Point{u*u*u*sg.start.X + 3*u*u*t*c1.X + 3*u*t*t*c2.X + t*t*t*sg.end.X, u*u*u*sg.start.Y + 3*u*u*t*c1.Y + 3*u*t*t*c2.Y + t*t*t*sg.end.Y}
+				case ArcToCmd:
+					large, sweep := toArcFlags(sg.a[3])
+					q = vhArcPoint(sg.start.X, sg.start.Y, sg.a[0], sg.a[1], sg.a[2], large, sweep, sg.end.X, sg.end.Y, t)
+				default:
+					q = Point{sg.start.X + t*(sg.end.X-sg.start.X), sg.start.Y + t*(sg.end.Y-sg.start.Y)}
+				}
+				pts = append(pts, q)
+			}
+		}
+	}
+	missing, extra := 0, 0
+	for i := 0; i <= 15; i++ {
+		for j := 0; j <= 13; j++ {
+			x, y := -2+float64(i)*0.8+0.113, -3+float64(j)*0.8+0.071
+			d := math.Inf(1)
+			for _, q := range pts {
+				d = math.Min(d, math.Hypot(q.X-x, q.Y-y))
+			}
+			if math.Abs(d-w/2) < 0.05 {
+				continue
+			}
+			in := s.Contains(x, y, NonZero)
+			if d < w/2 && !in {
+				missing++
+			} else if d > w/2 && in {
+				extra++
+			}
+		}
+	}
+	vKnown("D82", k == 4 || k == 5)
+	vAssert("C04.companion.points_within_half_the_width_are_inside", missing == 0)
+	vAssert("C04.companion.points_beyond_half_the_width_are_outside", extra == 0)
+}
